@@ -11,6 +11,7 @@ verus! {
 #[verifier::external_body] pub struct AccessLogFormat { _p: () }
 #[verifier::external_body] pub struct MetricsConfig { _p: () }
 #[verifier::external_body] pub struct ClusterConfig { _p: () }
+#[verifier::external_body] pub struct Cluster { _p: () }
 #[verifier::external_body] pub struct ConfigError { _p: () }
 #[verifier::external_body] pub struct Request { _p: () }
 #[verifier::external_body] pub struct HttpListenerConfig { _p: () }
@@ -178,6 +179,72 @@ impl Config {
     //@    r matches Ok(v) ==> v@.len() == self.n_listeners() + sum_requests(spec_cluster_values(self.clusters), spec_cluster_values(self.clusters).len() as int)
     //@        + (if self.activate_listeners { self.n_listeners() } else { 0 })
     //@        + (if self.disable_cluster_metrics { 1int } else { 0 }),                                    // [one-message-per-declared-object]
+    //@end
+}
+
+// ---------------------------------------------------------------- per-cluster request list (HTTP clusters)
+// "nothing duplicated or silently dropped": the cluster's command list is exactly the AddCluster request, then
+// every request of every frontend (in order, none filtered out), then one AddBackend per backend.
+#[verifier::external_body] pub struct HttpFrontendConfig { _p: () }
+#[verifier::external_body] pub struct BackendConfig { _p: () }
+#[verifier::external_body] pub struct LoadBalancingAlgorithms { _p: () }
+#[verifier::external_body] pub struct LoadMetric { _p: () }
+#[verifier::external_body] pub struct HealthCheckConfig { _p: () }
+#[verifier::external_body] pub struct UdpClusterConfig { _p: () }
+#[verifier::external_body]
+#[verifier::reject_recursive_types(K)]
+#[verifier::reject_recursive_types(V)]
+pub struct BTreeMap<K, V> { _p: PhantomData<(K, V)> }
+pub uninterp spec fn spec_frontend_requests(f: HttpFrontendConfig, cluster_id: String) -> Seq<Request>;
+impl HttpFrontendConfig {
+    // 110 lines of request building (AddCertificate + AddHttp(s)Frontend): a function of the frontend, not under contract
+    #[verifier::external_body]
+    pub fn generate_requests(&self, cluster_id: &String) -> (r: Vec<Request>)
+        ensures r@ == spec_frontend_requests(*self, *cluster_id)
+    { unimplemented!() }
+}
+pub uninterp spec fn spec_add_cluster_request(c: HttpClusterConfig) -> Request;
+pub uninterp spec fn spec_add_backend_request(c: HttpClusterConfig, b: BackendConfig) -> Request;
+#[verifier::external_body]
+pub fn verif_req_add_cluster(c: &HttpClusterConfig) -> (r: Request) ensures r == spec_add_cluster_request(*c) { unimplemented!() }
+#[verifier::external_body]
+pub fn verif_req_add_backend(c: &HttpClusterConfig, b: &BackendConfig) -> (r: Request)
+    ensures r == spec_add_backend_request(*c, *b)
+{ unimplemented!() }
+pub open spec fn flat_frontend_requests(c: HttpClusterConfig, n: int) -> Seq<Request>
+    decreases n
+{
+    if n <= 0 { Seq::empty() } else { flat_frontend_requests(c, n - 1) + spec_frontend_requests(c.frontends@[n - 1], c.cluster_id) }
+}
+pub open spec fn backend_requests(c: HttpClusterConfig, n: int) -> Seq<Request>
+    decreases n
+{
+    if n <= 0 { Seq::empty() } else { backend_requests(c, n - 1).push(spec_add_backend_request(c, c.backends@[n - 1])) }
+}
+
+//@item command/src/config.rs struct HttpClusterConfig
+
+impl HttpClusterConfig {
+    //@fn command/src/config.rs HttpClusterConfig::generate_requests
+    //@  ret r
+    //@  cut "RequestType::AddCluster(Cluster {" .. "\n        ];" => "verif_req_add_cluster(self),"
+    //@  subst "(backend_count, backend) in self.backends.iter().enumerate()" => "backend in verif_itb: &self.backends"
+    //@  cut "let load_balancing_parameters = Some(LoadBalancingParams {" .. "        }\n\n        // POST: the order stream" => "v.push(verif_req_add_backend(self, backend));\n"
+    //@  drop_dassert 0 iterator / matches! assertion; its content is part of the [exactly-the-declared-requests] clause
+    //@  drop_dassert 1 iterator filter count; its content is part of the [exactly-the-declared-requests] clause
+    //@  ensures
+    //@    r matches Ok(v) ==> v@ =~= seq![spec_add_cluster_request(*self)]
+    //@        + flat_frontend_requests(*self, self.frontends@.len() as int)
+    //@        + backend_requests(*self, self.backends@.len() as int),                      // [exactly-the-declared-requests-in-order]
+    //@    r is Ok,                                                                        // [total]
+    //@  loop 0
+    //@    iter verif_itf
+    //@    invariant
+    //@      v@ =~= seq![spec_add_cluster_request(*self)] + flat_frontend_requests(*self, verif_itf.index@),
+    //@  loop 1
+    //@    invariant
+    //@      v@ =~= seq![spec_add_cluster_request(*self)] + flat_frontend_requests(*self, self.frontends@.len() as int)
+    //@             + backend_requests(*self, verif_itb.index@),
     //@end
 }
 
